@@ -150,6 +150,10 @@ def c04(pid, tier, seed):
             Tpls=("MnC", "M"), Fins=("AndLeave", "AndClear", "Abandon", "WithMessage", "AbandonWithMessage"), M0="id"),
         fam("fin_multi_orders", W=4, H=12, Multi=True, MaxBars=3, D=6 if q else 7, BarOps=("finish", "drop"), MpOps=(), Tpls=("MC",), Fins=("AndLeave", "AndClear"),
             M0="id", shards=12),
+        fam("handles", W=6, H=8, D=5 if q else 6, BarOps=("clone", "drop_one", "drop", "downgrade", "upgrade", "tick", "finish", "reset_elapsed", "is_hidden"),
+            Tpls=("MnC",), Fins=("AndLeave", "AndClear"), DTs=(0, 1000), M0="id"),
+        fam("fin_multi_wrapped", W=4, H=14, Multi=True, MaxBars=3, Pre=2, Once=True, Cover=True, D=9 if q else 11, BarOps=("finish", "drop", "tick"), MpOps=(),
+            Tpls=("M",), Fins=("AndLeave",), M0="idw", shards=12),
         fam("fin_multi_limited", W=4, H=12, Multi=True, MaxBars=3, D=12, BarOps=finishes + ("burst", "inc", "drop", "iter"), MsgShapes=("a",), Tpls=("MnC",),
             Fins=("AndLeave", "AndClear", "Abandon", "WithMessage"), Hz=2, DTs=(0, 1000), M0="id", mode=("sim", 400 if q else 4000, 14), shards=12),
     ]
@@ -189,7 +193,7 @@ def c19(pid, tier, seed):
 def c06(pid, tier, seed):
     q = tier == "quick"
     ops = ("tick", "inc", "set_message", "set_prefix", "set_length", "println", "finish", "finish_with_message", "finish_and_clear", "abandon",
-           "reset", "force_draw", "set_tab_width", "set_style", "drop", "iter")
+           "reset", "force_draw", "set_tab_width", "set_style", "drop", "iter", "is_hidden")
     fams = [
         fam("hidden_target", W=10, H=5, D=4 if q else 5, BarOps=ops, MsgShapes=("a", "tab"), TextShapes=("T",), Tpls=("MnC",), Fins=("AndLeave", "AndClear"), Tgt="hidden"),
         fam("not_a_tty", W=10, H=5, D=4 if q else 5, BarOps=ops, MsgShapes=("a",), TextShapes=("T",), Tpls=("MnC",), Fins=("AndLeave", "WithMessage"), Tgt="pipe"),
